@@ -259,8 +259,11 @@ class CRS:
         if self._crs is other._crs:
             return True
 
-        if self._epsg and other._epsg:
-            return self._epsg == other._epsg
+        # Fast path only for codes given as such (``_str`` is ``EPSG:<n>`` then).
+        # ``_epsg`` can also hold the lazily computed best guess of ``.epsg``,
+        # equality must not depend on whether that was looked up already.
+        if self._str.startswith("EPSG:") and other._str.startswith("EPSG:"):
+            return self._str == other._str
 
         if self._str == other._str:
             return True
